@@ -492,3 +492,61 @@ Proof.
     apply Permutation_app_head. apply Permutation_app_tail. destruct u; reflexivity.
   - apply IH, Hs.
 Qed.
+
+(* ------------------------------------------------------------------ merging, characterised independently *)
+From Delb.Tree Require Import AFlat AEdit.
+Lemma cons_c_text s s' X : cons_c (CText s) (cons_c (CText s') X) = cons_c (CText (s ++ s')) X.
+Proof. destruct X as [|[b|i p k] r]; cbn [cons_c]; rewrite ?app_assoc; reflexivity. Qed.
+Lemma norm_text i s k : norm (INode i (PText s) k) = CText s. Proof. reflexivity. Qed.
+Lemma merge_run_norm l : forall acc,
+  fold_right cons_c [] (map norm (merge_run acc l)) = fold_right cons_c [] (map norm (acc :: l)).
+Proof.
+  induction l as [|t r IH]; intros acc; cbn [merge_run]; [reflexivity|].
+  destruct (is_itext acc && is_itext t)%bool eqn:E.
+  - apply andb_true_iff in E as [Ea Et]. destruct acc as [i p k], t as [j q k']. destruct p; try discriminate. destruct q; try discriminate.
+    rewrite IH. cbn [map fold_right iid text_of ipayload]. rewrite !norm_text. rewrite cons_c_text. reflexivity.
+  - cbn [map fold_right]. rewrite IH. reflexivity.
+Qed.
+Lemma merge_tree_norm t : norm (merge_tree t) = norm t.
+Proof.
+  induction t as [i p kids IH] using itree_ind'. cbn [merge_tree]. destruct p; try reflexivity; cbn [norm]; f_equal;
+    (assert (E : map norm (map merge_tree kids) = map norm kids)
+       by (clear -IH; induction kids as [|k r IHr]; [reflexivity|]; inversion IH as [|? ? Hk Hr]; subst; cbn [map]; rewrite Hk, (IHr Hr); reflexivity));
+    (destruct (map merge_tree kids) as [|a l] eqn:Em; [destruct kids; [reflexivity|discriminate]|]);
+    cbn [merge_list]; rewrite merge_run_norm, <- E; reflexivity.
+Qed.
+
+Lemma no_adj_cons a b r : no_adjacent_texts (a :: b :: r) = (negb (is_itext a && is_itext b) && no_adjacent_texts (b :: r))%bool.
+Proof. reflexivity. Qed.
+Lemma merge_run_no_adjacent l : forall acc, no_adjacent_texts (merge_run acc l) = true /\
+  (is_itext acc = false -> exists r, merge_run acc l = acc :: r).
+Proof.
+  induction l as [|t r IH]; intros acc; cbn [merge_run].
+  - split; [reflexivity|]. intros _. exists []. reflexivity.
+  - destruct (is_itext acc && is_itext t)%bool eqn:E.
+    + destruct (IH (INode (iid acc) (PText (text_of acc ++ text_of t)) [])) as [H1 _]. split; [exact H1|].
+      intros Ha. apply andb_true_iff in E as [Ea _]. congruence.
+    + destruct (IH t) as [H1 H2]. split; [|intros _; eexists; reflexivity].
+      destruct (merge_run t r) as [|b r'] eqn:Em; [reflexivity|]. rewrite no_adj_cons, H1, andb_true_r.
+      (* the head of merge_run t r is text iff t is *)
+      assert (Hb : is_itext b = is_itext t).
+      { clear -Em. revert t b r' Em. induction r as [|u r IHr]; intros t b r' Em; cbn [merge_run] in Em.
+        - injection Em as <- _. reflexivity.
+        - destruct (is_itext t && is_itext u)%bool eqn:E2.
+          + apply andb_true_iff in E2 as [Et _]. rewrite (IHr _ _ _ Em). rewrite Et. reflexivity.
+          + injection Em as <- _. reflexivity. }
+      rewrite Hb, E. reflexivity.
+Qed.
+Lemma merge_tree_merged t : merged (merge_tree t) = true.
+Proof.
+  induction t as [i p kids IH] using itree_ind'. cbn [merge_tree merged]. apply andb_true_iff. split.
+  - destruct (map merge_tree kids) as [|a l]; [reflexivity|]. cbn [merge_list]. apply merge_run_no_adjacent.
+  - (* every member of the merged list is a merged tree: a merged child, or a text leaf *)
+    assert (HK : forallb merged (map merge_tree kids) = true).
+    { clear -IH. induction kids as [|k r IHr]; [reflexivity|]. inversion IH as [|? ? Hk Hr]; subst. cbn [map forallb]. rewrite Hk, (IHr Hr). reflexivity. }
+    destruct (map merge_tree kids) as [|a l]; [reflexivity|]. cbn [merge_list]. cbn [forallb] in HK. apply andb_true_iff in HK as [Ha Hl].
+    clear -Ha Hl. revert a Ha Hl. induction l as [|t r IHr]; intros a Ha Hl; cbn [merge_run forallb] in *.
+    + rewrite Ha. reflexivity.
+    + apply andb_true_iff in Hl as [Ht Hr]. destruct (is_itext a && is_itext t)%bool; [apply IHr; [reflexivity|exact Hr]|].
+      cbn [forallb]. rewrite Ha. apply IHr; assumption.
+Qed.
